@@ -62,7 +62,7 @@ const char *__asan_default_options(void)
 const char *__ubsan_default_options(void) __attribute__((used));
 const char *__ubsan_default_options(void) { return "halt_on_error=1:exitcode=77:print_stacktrace=1"; }
 const char *__tsan_default_options(void) __attribute__((used));
-const char *__tsan_default_options(void) { return "exitcode=66:halt_on_error=0:report_signal_unsafe=0:history_size=4"; }
+const char *__tsan_default_options(void) { return "exitcode=66:halt_on_error=1:report_signal_unsafe=0:history_size=4:suppress_equal_stacks=0:suppress_equal_addresses=0"; }
 const char *__msan_default_options(void) __attribute__((used));
 const char *__msan_default_options(void) { return "exitcode=77"; }
 
